@@ -724,7 +724,7 @@ func DerivedFrom(v ssa.Value, src func(ssa.Value) bool, through func(*ssa.Call) 
 				}
 			}
 		case *ssa.Call:
-			if b, ok := x.Call.Value.(*ssa.Builtin); ok && (b.Name() == "append" || b.Name() == "min" || b.Name() == "max") {
+			if b, ok := x.Call.Value.(*ssa.Builtin); ok && (b.Name() == "append" || b.Name() == "min" || b.Name() == "max" || b.Name() == "len" || b.Name() == "cap") {
 				for _, a := range x.Call.Args {
 					if rec(a) {
 						return true
